@@ -14,7 +14,8 @@ HeapFromView(w) ==
   LET memset == ToSet(w.members) IN
   [ exists   |-> [k \in Copies |-> k = "o"],
     parented |-> FALSE,
-    unit     |-> [k \in Copies |-> [name |-> w.name, tab |-> "o", spec |-> "o", body |-> "o", mem |-> "o"]],
+    unit     |-> [k \in Copies |-> [name |-> w.name, tab |-> "o", spec |-> "o", body |-> "o", mem |-> "o", nest |-> "o"]],
+    nest     |-> [r \in Copies |-> [i \in NestIds |-> [types |-> [n \in NestNames |-> w.ntab[i][n]], parent |-> "o", scope |-> "o"]]],
     tabs     |-> [r \in Copies |-> [types |-> [n \in TabNames |-> w.tab[n]],
                                     procs |-> [m \in MemToks |-> IF m \in memset THEN "o" ELSE None]]],
     specs    |-> [r \in Copies |-> [decl |-> {v \in Vars : w.decl[v] # None}, marks |-> w.spec, scope |-> "o"]],
@@ -22,7 +23,7 @@ HeapFromView(w) ==
     mems     |-> [r \in Copies |-> [i \in DOMAIN w.members |-> [n |-> w.members[i], parent |-> "o"]]],
     par      |-> InitPar(FALSE) ]
 
-Tags(w) == <<w.owners, w.memparent, w.memtab, w.calls, w.tdef>>
+Tags(w) == <<w.owners, w.memparent, w.memtab, w.calls, w.tdef, w.nparent, w.nown>>
 
 \* every violated clause, abbreviated (TLC wraps wide tuples; the driver expands the names):
 \*   R:<exception> RoundTripCompletes   OU:<what> OriginalUntouched   T SameText   E:<component> Equal (content)
@@ -44,6 +45,8 @@ Judge(c) ==
        \o item(~(ToSet(c.u.memtab) \subseteq {"own"}), "S:mt")
        \o item(~(ToSet(c.u.calls) \subseteq {"own"}), "S:ca")
        \o item(~(ToSet(c.u.tdef) \subseteq {"own"}), "S:td")
+       \o item(~(ToSet(c.u.nparent) \subseteq {"self"}), "S:np")
+       \o item(~(ToSet(c.u.nown) \subseteq {"self"}), "S:no")
        \o item(c.types_u # c.types_o, "ST")
        \o item(~c.equal, "EQ")
        \o item(~c.hasheq, "EH")
